@@ -195,6 +195,61 @@ def base_fft(rel, struct, prefix, ctor):
     for fld, suffix in (("inplace_scratch_len", "inplace"), ("outofplace_scratch_len", "oop"), ("immut_scratch_len", "immut")):
         emit("%s_%s" % (prefix, suffix), "(len : Nat) (base : Spec)", to_lean(field(body, fld), env, names))
 
+def vec_lens(body):
+    """`let [mut] NAME = vec![<elem>; LEN];`  ->  {"NAME.len()": parsed LEN}"""
+    res = {}
+    for m in re.finditer(r"\blet\s+(?:mut\s+)?([A-Za-z_][A-Za-z_0-9]*)\s*(?::[^=;]+)?=\s*vec!\[[^;\]]+;\s*([^\]]+)\];", body):
+        try:
+            res[m.group(1) + ".len()"] = parse(m.group(2))
+        except Fail:
+            pass
+    return res
+
+def simd_algorithms():
+    """the AVX / SSE algorithm constructors that wrap inner transforms (crate-private; reached through the AVX / SSE planners)"""
+    # MixedRadix{2..16}xnAvx: one macro, `mixedradix_gen_data!`
+    src = read("src/avx/avx_mixed_radix.rs")
+    body = fn_body(src, r"macro_rules!\s+mixedradix_gen_data\s*\{")
+    body = body.replace("$inner_fft", "inner_fft").replace("$row_count", "row_count")
+    env = lets(body)
+    names = {"len": "len", "inner_fft.get_outofplace_scratch_len()": "inner.oop",
+             "inner_fft.get_inplace_scratch_len()": "inner.inplace"}
+    for fld, suffix in (("inplace_scratch_len", "inplace"), ("outofplace_scratch_len", "oop"), ("immut_scratch_len", "immut")):
+        emit("avxMixedRadix_%s" % suffix, "(len : Nat) (inner : Spec)", to_lean(field(body, fld), env, names))
+    uses = len(re.findall(r"mixedradix_gen_data!\(", src))
+    structs = len(re.findall(r"boilerplate_avx_fft_commondata!\(\s*MixedRadix\w+Avx\s*\)", src))
+    if uses != structs or uses == 0:
+        raise Fail("avx_mixed_radix.rs: %d uses of mixedradix_gen_data! for %d MixedRadix*Avx structs" % (uses, structs))
+    # RadersAvx2
+    src = read("src/avx/avx_raders.rs")
+    body = fn_body(src, r"unsafe fn new_with_avx\(inner_fft: Arc<dyn Fft<T>>\) -> Self\s*\{")
+    env = lets(body)
+    env.pop("inner_fft_len", None)
+    names = {"inner_fft_len": "inner.len", "inner_fft.get_inplace_scratch_len()": "inner.inplace"}
+    for fld, suffix in (("inplace_scratch_len", "inplace"), ("outofplace_scratch_len", "oop"), ("immut_scratch_len", "immut")):
+        emit("avxRaders_%s" % suffix, "(inner : Spec)", to_lean(field(body, fld), env, names))
+    m = re.search(r"boilerplate_avx_fft!\(\s*RadersAvx2\s*,(.*?)\n\);", src, re.S)
+    if not m or [x for x in re.findall(r"this\.(\w+)", m.group(1))] != ["len", "inplace_scratch_len", "outofplace_scratch_len", "immut_scratch_len"]:
+        raise Fail("RadersAvx2: boilerplate closures are not the four plain fields")
+    # BluesteinsAvx
+    src = read("src/avx/avx_bluesteins.rs")
+    body = fn_body(src, r"unsafe fn new_with_avx\(len: usize, inner_fft: Arc<dyn Fft<T>>\) -> Self\s*\{")
+    env = lets(body)
+    env.pop("inner_fft_len", None)
+    env.update({k: v for k, v in vec_lens(body).items()})
+    names = {"inner_fft_len": "inner.len", "inner_fft.get_inplace_scratch_len()": "inner.inplace"}
+    lens = [to_lean(field(body, fld), env, names) for fld in ("inplace_scratch_len", "outofplace_scratch_len", "immut_scratch_len")]
+    if not (lens[0] == lens[1] == lens[2]): raise Fail("BluesteinsAvx scratch fields differ: %r" % lens)
+    emit("avxBluesteins_scratch", "(inner : Spec)", lens[0])
+    # SseRadix4 (boilerplate_fft_sse_oop!): the three lengths are literal method bodies of the macro
+    src = read("src/sse/sse_common.rs")
+    mac = fn_body(src, r"macro_rules!\s+boilerplate_fft_sse_oop\s*\{")
+    if not re.search(r"boilerplate_fft_sse_oop!\(\s*SseRadix4\b", read("src/sse/sse_radix4.rs")):
+        raise Fail("SseRadix4 no longer uses boilerplate_fft_sse_oop!")
+    for meth, suffix in (("get_inplace_scratch_len", "inplace"), ("get_outofplace_scratch_len", "oop"), ("get_immutable_scratch_len", "immut")):
+        b = fn_body(mac, r"fn %s\(&self\) -> usize\s*\{" % meth).strip()
+        emit("sseRadix4_%s" % suffix, "(len : Nat)", to_lean(parse(b), {}, {"self.len()": "len"}))
+
 def main():
     try:
         two_fft("src/algorithm/mixed_radix.rs", "MixedRadix", "mixedRadix")
@@ -220,6 +275,7 @@ def main():
         base_fft("src/algorithm/radixn.rs", "RadixN", "radixN", "new")
         base_fft("src/algorithm/radix4.rs", "Radix4", "radix4", "new_with_base")
         base_fft("src/algorithm/radix3.rs", "Radix3", "radix3", "new_with_base")
+        simd_algorithms()
     except Fail as e:
         sys.stderr.write("T1 translator failed closed: %s\n" % e)
         sys.exit(3)
